@@ -184,6 +184,11 @@ func Load(repo string, overlay map[string][]byte) (*Ctx, error) {
 			inlineLog = append(inlineLog, log...)
 		}
 	}
+	if d := os.Getenv("VERIF_INLINE_DUMP"); d != "" {
+		for k, v := range goOverlay {
+			_ = os.WriteFile(filepath.Join(d, "dump-"+filepath.Base(k)), v, 0o644)
+		}
+	}
 	prog, spkgs := ssautil.Packages(pkgs, ssa.InstantiateGenerics)
 	prog.Build()
 	c := &Ctx{InlineLog: inlineLog, RepoDir: repo, Pkgs: pkgs, ByPath: map[string]*packages.Package{}, Prog: prog,
